@@ -1,4 +1,6 @@
 """C08 — the distance-to-subdifferential score is sound (engine P, full product)."""
+import itertools
+
 import numpy as np
 
 from mc.drivers import c07
@@ -62,7 +64,108 @@ def plan(tier, seed):
     tasks = [dict(op="scalar", cls=c, weight=3) for c in scalar_specs(tier)]
     tasks += [dict(op="row", cls=c, weight=2) for c in RP.ROW]
     tasks += [dict(op="group", cls="WeightedGroupL2", weight=3)]
+    tasks += [dict(op="fixscore", cls=c, weight=2) for c in ("scalar", "group", "row")]
     return tasks
+
+
+# -------------------------------------------------------------------------------- fixed-point scores of the solvers
+
+def ordered_subsets(n, kmax):
+    for k in range(1, kmax + 1):
+        yield from itertools.permutations(range(n), k)
+
+
+def fix_eval(params):
+    """The library's fixed-point score on a working set (any subset, any order) vs |w_B - prox_B(w_B - grad_B / L_B)| recomputed with the
+    penalty's own prox called with the *feature / group / row* index (the prox itself is C07's business).  Returns (violations, dist)."""
+    from mc import build
+    from skglm.solvers.common import dist_fix_point_cd, dist_fix_point_bcd
+    from skglm.solvers.multitask_bcd import dist_fix_point_bcd as dist_fix_point_rows
+    spec, kind, ws = params["spec"], params["kind"], np.array(params["ws"], dtype=np.int64)
+    p = build.penalty(spec)
+    d = build.datafit(dict(name="Quadratic"))
+    w = np.array(params["w"], dtype=float)
+    lips = np.array(params["lips"], dtype=float)
+    out = []
+    if kind == "scalar":
+        grad = np.array(params["grad"], dtype=float)
+        got = np.asarray(dist_fix_point_cd(w, grad, lips, d, p, ws), dtype=float)
+        exp = np.zeros(len(ws))
+        for idx, j in enumerate(ws):
+            st = 1.0 / lips[idx] if lips[idx] != 0 else 1000.0
+            exp[idx] = abs(w[j] - p.prox_1d(w[j] - st * grad[idx], st, j))
+    elif kind == "group":
+        groups = RP.groups_of(spec)
+        grad = np.array(params["grad"], dtype=float)
+        got = np.asarray(dist_fix_point_bcd(w, grad, lips, d, p, ws), dtype=float)[:len(ws)]
+        exp, ptr = np.zeros(len(ws)), 0
+        for idx, g in enumerate(ws):
+            ind = np.array(groups[g])
+            gg = grad[ptr:ptr + len(ind)]
+            ptr += len(ind)
+            st = 1.0 / lips[idx] if lips[idx] != 0 else 1000.0
+            exp[idx] = RP.norm2(w[ind] - p.prox_1group(w[ind] - st * gg, st, g))
+    else:
+        grad = np.array(params["grad"], dtype=float)
+        got = np.asarray(dist_fix_point_rows(w, grad, lips, d, p, ws), dtype=float)
+        exp = np.zeros(len(ws))
+        for idx, j in enumerate(ws):
+            st = 1.0 / lips[idx] if lips[idx] != 0 else 1000.0
+            exp[idx] = RP.norm2(w[j] - p.prox_1feat(w[j] - st * grad[idx], st, j))
+    if got.shape != exp.shape or not np.allclose(got, exp, rtol=1e-12, atol=1e-14, equal_nan=True):
+        out.append(("fixed_point_score_differs_from_prox_residual", got.tolist(), exp.tolist()))
+    return out, got
+
+
+def run_fixscore(ctx, which, tier):
+    GV = (0.3, -1.5, 0.0, 2.0, -0.2, 0.7)
+    LV = (2.0, 0.5, 0.0, 1.0, 4.0, 0.25)
+    if which == "scalar":
+        specs = [s for cls, ss in scalar_specs(tier).items() for s in ss if cls in ("L1", "WeightedL1", "MCPenalty", "WeightedMCPenalty", "L1_plus_L2", "SCAD", "IndicatorBox")]
+        specs = [s for s in specs if s.get("alpha", 1.0) in (0.5, 1.0, 1.5)][:40]
+    elif which == "group":
+        specs = c07.group_specs(tier) + c07.sparse_group_specs(tier)
+    else:
+        specs = [s for cls in RP.ROW for s in c07.row_specs(cls, tier)[:2]]
+    for spec in specs:
+        if which == "scalar":
+            P = len(spec["weights"]) if "weights" in spec else 4
+            wvecs = [np.array([0.0, 1.0, -0.4, 2.5, 0.0, -3.0][:P]), np.array([0.7, 0.0, 0.0, -1e-3, 1.0, 0.2][:P])]
+            sets = list(ordered_subsets(P, min(P, 3))) + [tuple(range(P))[::-1]]
+        elif which == "group":
+            G = len(spec["grp_ptr"]) - 1
+            P = len(spec["grp_indices"])
+            wvecs = [np.array([0.0, 1.0, -0.4, 2.5, 0.0, -3.0][:P]), np.array([0.7, 0.0, 0.0, 0.0, 1.0, 0.2][:P])]
+            sets = list(ordered_subsets(G, G))
+        else:
+            P = 4
+            wvecs = [np.array([[0.0, 0.0], [1.0, -2.0], [0.0, 0.3], [-0.5, 0.5]]), np.array([[0.7, 0.1], [0.0, 0.0], [2.0, 2.0], [0.0, -1e-3]])]
+            sets = list(ordered_subsets(P, 3)) + [(3, 2, 1, 0)]
+        if which == "scalar" and spec["name"] == "IndicatorBox":
+            wvecs = [np.clip(np.abs(w), 0, spec["alpha"]) for w in wvecs]
+        if spec.get("positive"):
+            wvecs = [np.abs(w) for w in wvecs]
+        for w in wvecs:
+            for ws in sets:
+                LVs = LV if spec["name"] in RP.CONVEX or which == "scalar" else (2.0, 1.0, 4.0)      # block non-convex proxes: admissible steps only
+                lips = [LVs[(i + ws[0]) % len(LVs)] for i in range(len(ws))]
+                if which == "group":
+                    sizes = [len(RP.groups_of(spec)[g]) for g in ws]
+                    grad = [GV[(k + ws[0]) % len(GV)] for k in range(sum(sizes))]
+                elif which == "row":
+                    grad = [[GV[(i + ws[0]) % len(GV)], GV[(i + 2 * ws[0] + 1) % len(GV)]] for i in range(len(ws))]
+                else:
+                    grad = [GV[(i + ws[0]) % len(GV)] for i in range(len(ws))]
+                params = dict(op="fixscore", kind=which, spec=spec, w=w.tolist(), ws=list(ws), lips=lips, grad=grad)
+                try:
+                    v, got = fix_eval(params)
+                except Exception as e:
+                    v, got = [("exception", type(e).__name__ + ": " + str(e)[:100], "a score")], None
+                ctx.count("fixscore_checked")
+                ctx.obs(got, nontrivial=got is not None and bool(np.any(got)))
+                for kind_, obs, exp in v:
+                    ctx.violation(f"solver:dist_fix_point.{which}", kind_, params, obs, exp, where=dict(penalty=spec["name"], kind=which))
+        ctx.sample(dict(op="fixscore", kind=which, spec=spec, working_sets=len(sets)))
 
 
 # -------------------------------------------------------------------------------- scalar clauses
@@ -122,6 +225,8 @@ def run(task, ctx):
     from mc import build
     tier = ctx.tier
     op, cls = task["op"], task["cls"]
+    if op == "fixscore":
+        return run_fixscore(ctx, cls, tier)
     if op == "scalar":
         for spec in scalar_specs(tier)[cls]:
             p = build.penalty(spec)
@@ -268,6 +373,12 @@ def run_blocks(ctx, p, spec, rows):
 def replay(params):
     from mc import build
     from mc.core import Ctx, fhex
+    if params["op"] == "fixscore":
+        try:
+            v, got = fix_eval(params)
+        except Exception as e:
+            v, got = [("exception", type(e).__name__ + ": " + str(e)[:100], "a score")], None
+        return dict(violated=bool(v), kinds=[x[0] for x in v], detail=fhex([[x[0], x[1], x[2]] for x in v[:3]]), score=fhex(got))
     spec = params["spec"]
     p = build.penalty(spec)
     op = params["op"]
@@ -328,5 +439,7 @@ def describe(tier, agg):
             "-(interval ends of the reference subdifferential) +-{0,1ulp,1e-3}}; working set passed permuted (idx != j); "
             "clauses: score == reference distance, inf at positivity violations, prox image has score 0, score 0 => prox "
             "fixed point (convex), unpenalised => no value; blocks: {-2,-.5,0,.5,2}^m m<=3 + kink-norm vectors x same gradient set + exact stationary "
-            "gradient; distinct = distinct finite non-zero scores")
-    return rule, {"score_zero": 50, "score_inf": 10, "proxfix_checked": 500, "converse_checked": 50}
+            "gradient; the solvers' fixed-point scores (dist_fix_point_cd / _bcd for groups / _bcd for rows) on every ordered working set of "
+            "<= 3 features / rows and every ordered set of groups vs the prox residual with the feature / group index; "
+            "distinct = distinct finite non-zero scores")
+    return rule, {"score_zero": 50, "score_inf": 10, "proxfix_checked": 500, "converse_checked": 50, "fixscore_checked": 3000}
